@@ -33,6 +33,10 @@ CLAIMS = {
     text="Decides: every discovered digest-comparing validator that protects an object the property lists has a caller on a load path and lies on every loader-loop iteration; its failing edge cannot reach an accepting return and its verdict is never discarded; the validated buffer is the one parsed afterwards; comparisons are full width; validate_with_hooks reports valid for a keyed value only through validate_content or the validated flag; skip hooks are pure functions of size; the content-addressed cache serves/stores only through the is_valid edge. That each protected byte is covered by the digest is not decided. Also: a pre-validated keyed value is minted only behind a successful validation; validators that receive the stored bytes hash those bytes (no re-serialisation); an optional epilogue checksum is skipped only through the None edge of its own Option; no read_exact into a provably empty buffer; a validator inside an iterator closure is quantified over all items; the hook fast path is taken only on the validated flag's true edge (edge-sensitive).",
     note="Trusted: validator discovery (digest call + comparison in one body); in-scope table keyed by (type, method) with the protected object's name.",
     technique="validator discovery + call-graph callers + result-edge gating (E-gate) + loop coverage (E-dom)", ref="§3 C07"),
+ "C09": dict(
+    text="Decides four structural necessary conditions only, none of them a value-level statement: (R1) every call of a #[target_feature] function lies behind the true edge of a test of the CPU-feature flag that implies the feature in the x86 ISA hierarchy, and every construction of the flag struct fills each flag from the matching is_x86_feature_detected (or constant false) - otherwise the helper executes an illegal instruction on some supported host instead of returning what the portable fallback returns; (R2) every x86 vector load/store through slice.as_ptr().add(i).cast() is PROVEN inside the slice (offset + vector width <= len) by the relational abstract interpretation E-bounds; (R3) the two hand-unrolled lookup3 functions add the same key bytes with the same shifts into the same accumulators in each of the 13 tail cases and in the 12-byte block step, each tail case is the next one minus its last byte, the 12-byte case equals the block step, and both run the same mixing functions (symbolic table extraction, sibling agreement - no comparison with a frozen published table); (R4) of each encrypt/decrypt pair one delegates to the other forwarding every parameter unchanged. NOT decided: that Salsa20 / ARC4 / lookup3 / MD5 produce the published outputs, SIMD == scalar equality of results beyond memory safety and dispatch soundness, piecewise == at-once keystream, counter carry.",
+    note="Trusted: rustc MIR + codegen_fn_attrs (target features); ISA implication table in rules/c09.py; E-bounds pointer model covers slice.as_ptr().add(i).cast() over u8 only (any other pointer reaching a vector intrinsic is reported as unproven). The CPU-feature struct is assumed to be built by the library's own constructors.",
+    technique="dominator analysis of feature-flag tests over resolved #[target_feature] callees, relational abstract interpretation of raw vector accesses (E-bounds), symbolic extraction and sibling comparison of unrolled switch tables", ref="§3 C09 (revised, 10.6)"),
  "C10": dict(
     text="Decides: every config limit in the slice of an eviction trigger is in the slice of the eviction size (else the limit can never be enforced) and the target is not clamped upward; every serving path passes an expiry test whose expired edge does not serve, expired disk entries lose their file; every map insert/remove/clear is paired, on the same path and conditional on its own result, with the matching update of both counters on the cache's own fields. Numeric bounds after each operation are not decided. Also: every path of every single-key put* to an Ok return passes the store (map insert or delegated put); persistence errors in cascette-cache are not swallowed (E-err).",
     note="Trusted: map/counter identification by field name tables per cache type; option_edges for if-let / is_some forms.",
@@ -80,7 +84,6 @@ CLAIMS = {
 }
 NA = {
  "C08": "round-trip equality over all accepted inputs is value-level; the only structural proxy (reader/writer primitive-sequence matching) is a frozen-shape match that would fire on behaviour-preserving edits",
- "C09": "cipher/hash functional correctness and SIMD=scalar equivalence are value-level; comparing unrolled source tables with published constants is a frozen-fragment proxy",
 }
 
 checks, na = [], []
